@@ -79,6 +79,24 @@ def build_case(rng, cid):
     return Case(cid, lines, meta)
 
 
+def bulk_case(rng, cid, n=400):
+    """hundreds of plain strings of one length that agree up to an embedded NUL (the compiler pools string literals in a
+    hash table keyed by their raw bytes), each planted once"""
+    prefix = bytes([rng.choice(b"MaZ"), rng.randrange(1, 256), rng.randrange(1, 256), 0])
+    tails = set()
+    while len(tails) < n:
+        tails.add(bytes(rng.randrange(256) for _ in range(4)))
+    decls = [m_text.TextDecl(prefix + t, ascii_=(i % 3 == 0)) for i, t in enumerate(sorted(tails))]
+    order = list(range(n))
+    rng.shuffle(order)
+    buf = b"".join(decls[i].text + bytes(rng.choice(b"xyz ") for _ in range(rng.choice([0, 1, 3]))) for i in order)
+    exp = [[m_text.expected(d, buf)] for d in decls]
+    src = ["rule A {", " strings:"] + ["  " + d.render("$s%d" % i, rng) for i, d in enumerate(decls)] + [" condition: any of them", "}"]
+    text = "\n".join(src) + "\n"
+    lines = ["dumpac 2", "cnew 0", "cadd 0 - " + hx(text), "crules 0 0", "buf 0 " + hx(buf), "scan r0 mem 0 0 0 -"]
+    return Case(cid, lines, dict(decls=decls, bufs=[buf], exp=exp, brules=[], src=text[:3000] + "...", near=[1]))
+
+
 def evaluate(chk, case, res, stats):
     m = case.meta
     wit_base = {"rule_source": m["src"], "buffers_hex": [b.hex() for b in m["bufs"]], "script": case.script()}
@@ -228,6 +246,7 @@ def main(args):
     ncases = int((3000 if args.tier == "quick" else 30000) * args.scale)
     rng = chk.rng
     cases = [build_case(random.Random(rng.getrandbits(64)), "c%d" % i) for i in range(ncases)]
+    cases += [bulk_case(random.Random(rng.getrandbits(64)), "bulk%d" % i) for i in range(2 if args.tier == "quick" else 12)]
     results = harness.run_cases(exe, cases, "c01", cpu=300)
     stats = dict(sigs=set(), pairs=0, nontrivial=set(), ambiguous=0, samples=[], verdict_rules=0)
     for c in cases:
